@@ -90,6 +90,26 @@ class C15(Prop):
             self._requests(acc, remote, irs)
             self._swing(acc, remote, irs)
         db.unlink()
+        # a remote built directly from a set the application holds itself: the wave list in whatever iterable it has
+        rid, irs = list(sets.items())[i % len(sets)]
+        waves = irs["IRWaveList"]
+        form, made = [("tuple", lambda: tuple(waves)), ("one-shot-iterator", lambda: iter(list(waves))),
+                      ("generator", lambda: (dict(w) for w in waves)), ("reversed-list", lambda: list(reversed(waves)))][i % 4]
+        acc.count(f"direct_remotes_from_{form}")
+        try:
+            direct = self.remotes.SwitcherBreezeRemote(dict(irs, IRWaveList=made()))
+        except Exception as exc:
+            acc.violation("load-failed:direct", f"SwitcherBreezeRemote(set with the wave list as {form}) raised {type(exc).__name__}: {exc}", {"set": rid, "form": form})
+        else:
+            real = acc.violation
+            acc.violation = lambda mech, summary, detail=None, case=None: real(mech + ":wave-list-as-" + form, summary, detail, case)
+            try:
+                self._capabilities(acc, direct, irs)
+                self._swing(acc, direct, irs)
+                if i % 3 == 0:
+                    self._requests(acc, direct, irs)
+            finally:
+                acc.violation = real
         if i % 4 == 0:
             rid, irs = next(iter(sets.items()))
             acc.sample({"set": rid, "toggle": irs["OnOffType"], "keys": len(irs["IRWaveList"]),
